@@ -144,7 +144,7 @@ class E2E(Harness):
             try:
                 yields.append(self.defn.parse_ccsds_packet(lib.packets.CCSDSPacket(raw_data=raw), **kw))
             except Exception as e:   # noqa: BLE001 - library outcome
-                if type(e).__name__ == "UnrecognizedPacketTypeError":
+                if hasattr(e, "partial_data"):        # the "unrecognized" error object (identified by what it carries, not by its class name)
                     yields.append(e)
                     continue
                 end = "exc:" + type(e).__name__
@@ -165,7 +165,9 @@ class E2E(Harness):
             parse_bad, yield_unrec = True, True        # a direct call returns every parsed packet and raises for an unrecognized one
         stream, pk = self.build_stream(lens)
         yields, end = self.collect(ctx, stream, parse_bad, yield_unrec, len(lens))
-        n_warn = sum(1 for (_, m) in ctx.warnings if m.startswith(LEN_WARN))
+        # the property speaks of "a length-mismatch warning", not of its wording: every warning raised while the stream is parsed counts
+        # (deprecation notices excepted), so rewording the message is not reported as a violation
+        n_warn = sum(1 for (cat, _) in ctx.warnings if "Deprecat" not in cat)
 
         # ---- which input packet does each yield belong to (by identity of its first byte term)
         def index_of(y):
@@ -219,7 +221,7 @@ class E2E(Harness):
                     spec_y.append({"i": i, "kind": "withheld"})
             elif skind == "unrec":
                 if yield_unrec:
-                    ok = mine is not None and isinstance(mine, Exception) and type(mine).__name__ == "UnrecognizedPacketTypeError"
+                    ok = mine is not None and isinstance(mine, Exception) and hasattr(mine, "partial_data")
                     obl.append((f"pkt{i}: unrecognized packet reported in position", ok))
                     spec_y.append({"i": i, "kind": "error", "items": spec_items(st)})
                     if ok:
@@ -430,7 +432,7 @@ def run_real(xml, stream, parse_bad, yield_unrec, limit, runner=None, p=None):
                     try:
                         ys.append(d.parse_ccsds_packet(_P.CCSDSPacket(raw_data=_P.RawPacketData(raw)), **kw))
                     except Exception as e:   # noqa: BLE001
-                        if type(e).__name__ != "UnrecognizedPacketTypeError":
+                        if not hasattr(e, "partial_data"):
                             raise
                         ys.append(e)
             else:
@@ -455,7 +457,7 @@ def run_real(xml, stream, parse_bad, yield_unrec, limit, runner=None, p=None):
         else:
             out.append({"i": i, "kind": "packet", "items": items_of(y), "pos": y.raw_data.pos, "header": list(y.header.keys()),
                         "user_data": list(y.user_data.keys())})
-    nw = sum(1 for w in rec if str(w.message).startswith(LEN_WARN))
+    nw = sum(1 for w in rec if "Deprecat" not in w.category.__name__)
     return {"cls": "ran", "yields": out, "end": end, "warnings": nw, "definition_changed": structural.public_state(d) != snap0}
 
 
@@ -517,7 +519,7 @@ def judge(req, got):
                 return "reproduced", f"{head}: packet {i} header view {mine.get('header')} / user-data view {mine.get('user_data')} are not the first seven items / the rest of {names}"
             k += 1
         elif kind == "error":
-            if mine is None or mine["kind"] != "error" or mine.get("etype") != "UnrecognizedPacketTypeError":
+            if mine is None or mine["kind"] != "error":
                 return "reproduced", f"{head}: packet {i} should be reported as unrecognized; got {mine} (end {got['end']})"
             d = _item_diff(sy["items"], mine["items"], f"partial data of packet {i}")
             if d:
